@@ -125,7 +125,7 @@ func TestVerifBounded_C17_Service(t *testing.T) {
 								wg.Wait()
 							}
 						}()
-						ctx, cancel := context.WithTimeout(context.Background(), 3*time.Second)
+						ctx, cancel := context.WithTimeout(context.Background(), 20*time.Second)
 						terr := svc.AwaitTerminated(ctx)
 						cancel()
 						final := svc.State()
@@ -138,6 +138,26 @@ func TestVerifBounded_C17_Service(t *testing.T) {
 						}
 						rerr := svc.AwaitRunning(context.Background())
 						time.Sleep(2 * time.Millisecond)
+						// listener callbacks are delivered by the listener's own goroutine: wait (generously: the machine may be
+						// loaded) until the callback for the final state has arrived; only a callback that never comes is a violation
+						patience := 4000
+						if fails > 2 {
+							patience = 10 // violations are already being reported: do not wait seconds for each further case
+						}
+						for w := 0; w < patience; w++ {
+							seen := false
+							rec.mu.Lock()
+							for _, e := range rec.ev {
+								if strings.HasPrefix(e, "L:"+final.String()) {
+									seen = true
+								}
+							}
+							rec.mu.Unlock()
+							if seen {
+								break
+							}
+							time.Sleep(2 * time.Millisecond)
+						}
 						rec.mu.Lock()
 						ev := append([]string{}, rec.ev...)
 						bad := rec.bad
